@@ -1,14 +1,28 @@
 #!/bin/bash
-# tools_keep_seed.sh <Cxx> <name>: verify /tmp/agent-<Cxx> in /tmp/wt-<Cxx> (demo fails with, passes without), store under seeded/<name>
+# tools_keep_seed.sh <tag e.g. C04a> <name>: verify the seeder's delivery in /tmp/agent-<tag> against worktree /tmp/wt-<tag>
+# (demo fails with the change, passes without; patch applies to /repo's HEAD), then store it under seeded/<name>/.
 set -u
-C="$1"; N="$2"; WT=/tmp/wt-$C; A=/tmp/agent-$C
+T="$1"; N="$2"; WT=/tmp/wt-$T; A=/tmp/agent-$T
 export PYTHONPATH=$WT/packages/geff/src:$WT/packages/geff-spec/src PYTHONHASHSEED=0
-cd $WT
-git checkout -q -- . ; git apply $A/patch.diff || exit 2
+cd $WT || exit 2
+git diff > /tmp/keep-$T.diff
+[ -s $A/patch.diff ] || cp /tmp/keep-$T.diff $A/patch.diff
+git checkout -q -- . ; git apply $A/patch.diff || { echo "patch does not apply"; exit 2; }
 /venv/bin/python -W ignore $A/demo.py >/dev/null 2>&1; W=$?
 git checkout -q -- .
 /venv/bin/python -W ignore $A/demo.py >/dev/null 2>&1; WO=$?
 echo "demo with change: exit $W ; without: exit $WO"
 if [ $W -ne 0 ] && [ $WO -eq 0 ]; then
-  mkdir -p /verif/seeded/$N && cp $A/patch.diff $A/demo.py /verif/seeded/$N/ && cp $A/meta.json /verif/seeded/$N/meta.agent.json && echo kept $N
+  mkdir -p /verif/seeded/$N && cp $A/patch.diff $A/demo.py /verif/seeded/$N/ && cp $A/meta.json /verif/seeded/$N/meta.agent.json
+  /venv/bin/python - "$N" "$W" "$WO" <<'PY'
+import json, sys, os
+n, w, wo = sys.argv[1:4]
+d = f"/verif/seeded/{n}"
+a = json.load(open(f"{d}/meta.agent.json"))
+m = {"property": a.get("property"), "breaks": a.get("summary"), "needs_to_manifest": a.get("needs"),
+     "what_was_run": {"agent_tests": a.get("tests_run"), "demo_changed_exit_verified": int(w), "demo_unchanged_exit_verified": int(wo),
+                      "verified_by": "tools_keep_seed.sh in a scratch worktree of /repo HEAD: demo.py exits non-zero with patch.diff applied and 0 without"}}
+json.dump(m, open(f"{d}/meta.json", "w"), indent=1)
+PY
+  echo kept $N
 else echo "NOT kept"; fi
